@@ -65,6 +65,12 @@ pub enum Case {
         /// transaction is confirmed on the tracker's chain
         #[serde(default)]
         onchain: bool,
+        /// the node runs with the operator filter [policy-commitment-previous-revoked: error,
+        /// policy-commitment-retry-same: error, policy-*: warn] merged into its policy the way
+        /// vlsd merges it: the two rules this property rests on stay mandatory, everything else
+        /// is only logged
+        #[serde(default)]
+        carve_out: bool,
     },
     /// Store: steps = (kind, param) interpreted by `run_store`
     Store { steps: Vec<StoreOp> },
@@ -176,8 +182,22 @@ struct SignRec {
 pub struct C03;
 
 impl C03 {
-    fn run_chan(&self, anchors: bool, outbound: bool, onchain: bool, ops: &[Op], st: &mut CaseStats, ctx: &Ctx) -> Result<(), Violation> {
-        let mut w = if onchain { World::new_onchain(WorldCfg::default_testnet()) } else { World::new(WorldCfg::default_testnet()) };
+    fn run_chan(&self, anchors: bool, outbound: bool, onchain: bool, carve_out: bool, ops: &[Op], st: &mut CaseStats, ctx: &Ctx) -> Result<(), Violation> {
+        let mut cfg = WorldCfg::default_testnet();
+        if carve_out {
+            use lightning_signer::policy::filter::{FilterResult, FilterRule, PolicyFilter};
+            let mut f = PolicyFilter::default();
+            f.merge(PolicyFilter {
+                rules: vec![
+                    FilterRule { tag: "policy-commitment-previous-revoked".to_string(), is_prefix: false, action: FilterResult::Error },
+                    FilterRule { tag: "policy-commitment-retry-same".to_string(), is_prefix: false, action: FilterResult::Error },
+                    FilterRule { tag: "policy-".to_string(), is_prefix: true, action: FilterResult::Warn },
+                ],
+            });
+            cfg.policy.filter.merge(f);
+            st.class("carve_out_filter");
+        }
+        let mut w = if onchain { World::new_onchain(cfg) } else { World::new(cfg) };
         st.class(if onchain { "onchain-factory" } else { "simple-factory" });
         let mut spec = ChanSpec::basic(1);
         spec.anchors = anchors;
@@ -602,15 +622,15 @@ impl Prop for C03 {
         let n = tier.pick(30usize, 80usize);
         let m = tier.pick(40usize, 150usize);
         prop_oneof![
-            3 => (any::<bool>(), any::<bool>(), proptest::collection::vec(op_strat(), 1..n), prop::bool::weighted(0.4))
-                .prop_map(|(anchors, outbound, ops, onchain)| Case::Chan { anchors, outbound, ops, onchain }),
+            3 => (any::<bool>(), any::<bool>(), proptest::collection::vec(op_strat(), 1..n), prop::bool::weighted(0.4), prop::bool::weighted(0.15))
+                .prop_map(|(anchors, outbound, ops, onchain, carve_out)| Case::Chan { anchors, outbound, ops, onchain, carve_out }),
             2 => proptest::collection::vec(store_op_strat(), 1..m).prop_map(|steps| Case::Store { steps }),
         ]
         .boxed()
     }
     fn run(&self, case: &Case, st: &mut CaseStats, ctx: &Ctx) -> Result<(), Violation> {
         match case {
-            Case::Chan { anchors, outbound, ops, onchain } => self.run_chan(*anchors, *outbound, *onchain, ops, st, ctx),
+            Case::Chan { anchors, outbound, ops, onchain, carve_out } => self.run_chan(*anchors, *outbound, *onchain, *carve_out, ops, st, ctx),
             Case::Store { steps } => self.run_store(steps, st, ctx),
         }
     }
